@@ -34,6 +34,9 @@ def cases():
     d2 = {"A": "[M]", "B": "[N]", "C": "[M]", "Z": "[M]"}
     c.append(("terms over different rank sets", y(decl=d2, exprs=["Z[m] = A[m] + B[n]"])))
     c.append(("third term over different ranks", y(decl=d2, exprs=["Z[m] = A[m] + C[m] + B[n]"])))
+    d3 = {"A": "[M]", "B": "[M, N]", "Z": "[M, N]"}
+    c.append(("later term over a superset of the ranks", y(decl=d3, exprs=["Z[m, n] = A[m] + B[m, n]"])))
+    c.append(("first term over a superset of the ranks", y(decl=d3, exprs=["Z[m, n] = B[m, n] + A[m]"])))
     # flatten rules
     P = "  partitioning:\n    Z:\n"
     c.append(("flatten with other directive", y(mapping=P + "      (K, M): [flatten(), uniform_occupancy(A.4)]\n")))
@@ -53,6 +56,10 @@ def cases():
     c.append(("nway after occupancy", y(mapping=P + "      K: [uniform_occupancy(A.4), nway_shape(2)]\n")))
     c.append(("nway after occupancy (3 levels)", y(mapping=P + "      K: [uniform_shape(8), uniform_occupancy(A.4), nway_shape(2)]\n")))
     c.append(("nway after two occupancy levels", y(mapping=P + "      K: [uniform_occupancy(A.8), uniform_occupancy(A.4), nway_shape(2)]\n")))
+    c.append(("nway after occupancy with a shape split between", y(decl={"A": "[K, M]", "Z": "[M]"}, exprs=["Z[m] = A[k, m]"],
+              mapping=P + "      K: [uniform_occupancy(A.6), uniform_shape(4), nway_shape(2)]\n")))
+    c.append(("shape split below an occupancy split after flattening",
+              y(mapping=P + "      (K, M): [flatten()]\n      KM: [uniform_occupancy(A.6), uniform_shape(3)]\n")))
     c.append(("shape split after flattening", y(mapping=P + "      (K, M): [flatten()]\n      KM: [uniform_shape(4)]\n")))
     c.append(("nway shape split after flattening", y(mapping=P + "      (K, M): [flatten()]\n      KM: [nway_shape(4)]\n")))
     # loop order projecting into the output
